@@ -180,10 +180,10 @@ Section listeners.
       assert (Epa : partial_alter (fun _ => Some their) a m = <[a := their]> m) by reflexivity. rewrite Epa.
       destruct (bool_decide (l = their)) eqn:Eq.
       + apply bool_decide_eq_true in Eq. subst their. rewrite andb_negb_r. cbn. rewrite insert_id by exact Hm. reflexivity.
-      + assert (Hfirst : replay [RRemoveListener (proxy_of k) a; RAddListener k a (Listener false (l_fields their) (l_rest their))] (set_l k s0 m)
+      + assert (Hfirst : replay [RRemoveListener (proxy_of k) a; RAddListener k a (Listener false (l_fields their) (l_rest their)) true] (set_l k s0 m)
                          = (set_l k s0 (<[a := Listener false (l_fields their) (l_rest their)]> m), 0%nat)).
         { cbn [Model.replay Model.dispatch]. unfold remove_listener. rewrite Hkind, Hget, Hm, Hset.
-          unfold add_listener. rewrite Hget, lookup_delete, Hset. rewrite insert_delete_insert. reflexivity. }
+          unfold add_listener. rewrite andb_false_r, Hget, lookup_delete, Hset. rewrite insert_delete_insert. reflexivity. }
         rewrite <- !app_assoc. rewrite replay_app, Hfirst.
         destruct (l_active their) eqn:Eat.
         * rewrite andb_false_r. cbn [app Model.replay Model.dispatch]. unfold set_active.
